@@ -150,8 +150,11 @@ type Scn struct {
 	Need    int      `json:"need"` // an extra matcher in front needs this many bytes (forces prefetching past the header)
 	// Timeout: the handler's header timeout in ms (0: option absent).  Direct: the recording
 	// handler follows the PROXY handler in the same route instead of sitting in a subroute
-	Timeout int  `json:"timeout,omitempty"`
-	Direct  bool `json:"direct,omitempty"`
+	// PeerNet: the socket peer is a UDP ("udp") or unix-socket ("unix") address instead of TCP; a
+	// peer without an IP address is inside no allow list
+	PeerNet string `json:"peer_net,omitempty"`
+	Timeout int    `json:"timeout,omitempty"`
+	Direct  bool   `json:"direct,omitempty"`
 }
 
 func payload(n int) []byte {
@@ -173,6 +176,9 @@ func ipOf(s string) string {
 func allowed(sc *Scn) bool {
 	if len(sc.Allow) == 0 {
 		return true
+	}
+	if sc.PeerNet == "unix" {
+		return false
 	}
 	ip := net.ParseIP(ipOf(sc.Peer))
 	for _, c := range sc.Allow {
@@ -249,6 +255,12 @@ func execute(x *explore.Exec, sc *Scn, b *built) {
 	conn.EOFWithData = sc.Payload <= 1 || thoroughTier
 	peer, _ := net.ResolveTCPAddr("tcp", sc.Peer)
 	conn.Remote = peer
+	switch sc.PeerNet {
+	case "udp":
+		conn.Remote = &net.UDPAddr{IP: peer.IP, Port: peer.Port}
+	case "unix":
+		conn.Remote = &net.UnixAddr{Name: "/run/peer.sock", Net: "unix"}
+	}
 	if len(stream) > 40 {
 		conn.Menu = hm.StdMenu(1, len(hdr)-1, len(hdr), len(hdr)+1, 2047, 2048, 4096, 4097)
 	}
@@ -360,7 +372,9 @@ func scenarios(tier string, yield func(any) bool) {
 		Hdr{V: 2, Cmd: "PROXY", Fam: "UNSPEC", TLV: 0}, Hdr{V: 2, Cmd: "LOCAL", Fam: "TCP4", Src: "10.1.1.1", Dst: "10.2.2.2", SPort: 7, DPort: 8, TLV: -1})
 	allows := [][]string{nil, {"192.0.2.0/24"}, {"10.0.0.0/8"}, {"192.0.2.0/24", "192.0.2.7/32"}, {"2001:db8::/32"},
 		// nested subnets that share their network address: the peer is only inside the wider one
-		{"192.0.0.0/24", "192.0.0.0/16"}, {"192.0.0.0/16", "192.0.0.0/24"}, {"2001:db8::/126", "2001:db8::/32"}, {"10.0.0.0/8", "10.0.0.0/12"}}
+		{"192.0.0.0/24", "192.0.0.0/16"}, {"192.0.0.0/16", "192.0.0.0/24"}, {"2001:db8::/126", "2001:db8::/32"}, {"10.0.0.0/8", "10.0.0.0/12"},
+		// the same subnet twice; equal prefix lengths in both address families
+		{"192.0.2.0/24", "192.0.2.0/24"}, {"10.0.0.0/8", "10.0.0.0/8"}, {"192.0.0.0/8", "2000::/8"}, {"2000::/8", "192.0.0.0/8"}}
 	nested := func(al []string) bool { return len(al) == 2 && al[1] != "192.0.2.7/32" }
 	peers := []string{"192.0.2.7:50000", "[2001:db8::9]:50000"}
 	for _, h := range hdrs {
@@ -386,6 +400,16 @@ func scenarios(tier string, yield func(any) bool) {
 							return
 						}
 					}
+					// other kinds of socket peer
+					if pl == 5 && len(al) <= 1 && !strings.Contains(peer, "[") {
+						for _, pn := range []string{"udp", "unix"} {
+							// (behind a unix-socket peer no remote_ip matcher follows: it refuses
+							// addresses that are not IP addresses, which is not this property's business)
+							if !yield(&Scn{H: h, Payload: pl, Allow: al, Peer: peer, PeerNet: pn, Direct: pn == "unix"}) {
+								return
+							}
+						}
+					}
 					// with a header timeout configured, followed by a subroute or directly by the
 					// consuming handler
 					if pl == 5 && len(al) <= 1 {
@@ -403,11 +427,18 @@ func scenarios(tier string, yield func(any) bool) {
 
 var thoroughTier bool
 
+func dupOrMixed(al []string) bool {
+	return len(al) == 2 && (al[0] == al[1] || strings.Contains(al[0], ":") != strings.Contains(al[1], ":"))
+}
+
 func bounds(tier string, sc *Scn) explore.Bounds {
 	thoroughTier = tier == "thorough"
 	b := explore.DefaultBounds(1)
 	hl := len(sc.H.Encode())
 	switch {
+	case tier != "thorough" && (sc.PeerNet != "" || sc.Timeout > 0 || dupOrMixed(sc.Allow)):
+		// dimensions that do not interact with segmentation: two read deviations
+		b[explore.KRead] = 2
 	case hl+sc.Payload <= 40:
 		b[explore.KRead] = explore.Unbounded
 		if hl+sc.Payload > 22 {
